@@ -271,6 +271,34 @@ def tree_eval(prog):
                 out["filing"] = ("errors arriving as %s: the root holds %r and ['p'] holds %r; expected %r and %r (an error without a keyword is filed under None; of "
                                  "two errors with one place and keyword the later one is kept)" % (
                                      [(list(g(e, "path")), g(e, "validator")) for e in order], got_root, got_p, want_root, want_p))
+        # a path is a sequence of elements, not a string: member names that contain whatever a printed form of a path would use as a
+        # separator or escape ('/', '.', '~1', '][', the empty name) stay the names of single members, in either arrival order
+        s1 = VE("s1", validator="type", path=["a/b"], instance=1)
+        s2 = VE("s2", validator="minimum", path=["a", "b"], instance=2)
+        s3 = VE("s3", validator="type", path=["", "a"], instance=3)
+        s4 = VE("s4", validator="maximum", path=["/a"], instance=4)
+        s5 = VE("s5", validator="enum", path=["a~1b"], instance=5)
+        s6 = VE("s6", validator="const", path=["a.b"], instance=6)
+        s7 = VE("s7", validator="pattern", path=["a']['b"], instance="7")
+        s8 = VE("s8", validator="format", path=["a", "b", ""], instance="8")
+        s9 = VE("s9", validator="maxLength", path=["a", "b/"], instance="9")
+        want_sep = {("a/b",): {"type": s1}, ("a", "b"): {"minimum": s2}, ("", "a"): {"type": s3}, ("/a",): {"maximum": s4}, ("a~1b",): {"enum": s5},
+                    ("a.b",): {"const": s6}, ("a']['b",): {"pattern": s7}, ("a", "b", ""): {"format": s8}, ("a", "b/"): {"maxLength": s9}}
+        for order in ([s1, s2, s3, s4, s5, s6, s7, s8, s9], [s9, s8, s7, s6, s5, s4, s3, s2, s1], [s2, s1, s4, s3, s6, s5, s9, s7, s8]):
+            t7 = T(list(order))
+            for pth, werrs in want_sep.items():
+                node = t7
+                try:
+                    for el in pth:
+                        node = node[el]
+                    got_errs = dict(g(node, "errors"))
+                except PyRaise as pr:
+                    got_errs = "<%s>" % pr.name
+                if got_errs != werrs and out["filing"] is None:
+                    out["filing"] = ("errors arriving as %s (member names containing '/', '.', '~1' or nothing at all): the node at %r holds %r, expected %r -- a "
+                                     "path is filed element by element, not under a joined spelling of it" % ([list(g(e, "path")) for e in order], list(pth), got_errs, werrs))
+            if out["filing"] is None and (g(t7, "total_errors") != 9 or len(t7) != 9):
+                out["filing"] = "nine errors at nine different places (member names containing separators): total_errors is %r" % (g(t7, "total_errors"),)
         # building a tree reads the errors; it does not change them (their paths are looked at again afterwards)
         out["errors-untouched"] = None
         for e, pth in ((e0, []), (e2, ["x", 0]), (e5, ["x"]), (e7, ["a", "b"]), (f4, ["a", "b", "c"]), (f6, [])):
